@@ -80,6 +80,11 @@ def _call_sites():
     # a string that names no member is rejected with or without a footprint (observation = the exception type), like the bare parser
     for bad in ("circle", "POLYGON ", ""):
         sites.append(("Shape(non-member %r, footprint)" % bad, obs(lambda: repr(type(Shape(bad, (2.0, 4.0, 1.5), tri).type).__name__)), obs(lambda: repr(ShapeType.from_value(bad)))))
+    from perception_eval.common.evaluation_task import set_task_lists
+
+    tasks = list(EvaluationTask)
+    for name_, order in (("reversed", tasks[::-1]), ("with-repeats", [tasks[1], tasks[0], tasks[1], tasks[-1], tasks[0]]), ("single", [tasks[3]]), ("empty", [])):
+        sites.append(("set_task_lists(%s)" % name_, obs(lambda: repr(set_task_lists([t.value for t in order]))), obs(lambda: repr(list(order)))))
     for a in FrameID:
         for c in (FrameID.BASE_LINK, FrameID.MAP):
             def tk(x, y):
